@@ -40,6 +40,11 @@ CHECKS = {
   note="bounded: depth <=3 over the stated alphabets; Negate(non-negative literal) and extension/set/record VALUES are outside the text-expressible domain; >4 stacked unary operators, trailing commas and /* */ comments not asserted either way",
   tech="bounded-exhaustive enumeration of ASTs x renderings against a reference printer (grammar-directed), with generated negative tables",
   ref="DESIGN.md §5 C07"),
+ "C08": dict(
+  text="bounded-exhaustive enumeration: every operator form over every value of the 80-value boundary universe in ast.Value position (negative longs, extension values, sets, records with keyword/empty/control/non-ASCII keys) from builder and JSON-decoded sources, all depth-2 pairings, all scope/annotation heads, and every Unicode scalar value (quick: U+0000-2FFF and table boundaries; thorough: all 1 112 064) in every string position; MarshalCedar output must parse, keep effect/annotations/scope, evaluate identically in 6 environments and be a byte fixpoint; PolicyList / PolicySet (>=11 policies, lexicographic order) / Encoder->Decoder keep content and order",
+  note="bounded: depth <=2; meaning compared with x/exp/eval.Eval (conformance is C01); unknown extension names and receiver-less method calls are not expressible in text",
+  tech="bounded-exhaustive enumeration of policies and of the whole Unicode scalar range through marshal -> parse -> evaluate / re-marshal, differential oracle",
+  ref="DESIGN.md §5 C08"),
  "C20": dict(
   text="explicit-state BFS over all container operation histories up to the stated depth from 14 initial states, every transition executed on the real PolicySet and compared with a Go-map model and the authorization decision table",
   note="bounded: ids {a, policy1, policy10, policy2}+loaded ids, 5 policy kinds, depth 4 (quick) / 6 (thorough); model = plain Go map",
